@@ -388,8 +388,20 @@ func CompareHistory(u *probe.Unit, exp []Expect, skipTainted bool) (mm []Mismatc
 				}
 				text = strings.ReplaceAll(r.Err, e.Err.Token, "")
 			}
+			notText := text
+			if e.Err.Token != "" {
+				// the runtime reports the errors of all failing arguments, fields and calls together, one per line: the demand
+				// concerns the line(s) of this token only
+				var own []string
+				for _, ln := range strings.Split(r.Err, "\n") {
+					if strings.Contains(ln, e.Err.Token) {
+						own = append(own, strings.ReplaceAll(ln, e.Err.Token, ""))
+					}
+				}
+				notText = strings.Join(own, "\n")
+			}
 			for _, s := range e.Err.Not {
-				if strings.Contains(text, s) {
+				if strings.Contains(notText, s) {
 					mm = append(mm, Mismatch{i, "error-text", fmt.Sprintf("%s: error %q contains %q although another message was given (%s)", label, r.Err, s, e.Err.Why)})
 				}
 			}
